@@ -1,7 +1,7 @@
 """SG rules: scalar/array sibling agreement and array-type discipline (property C37, parts of C18/C02)."""
 import ast
 
-from .core import AnalysisError, iter_nodes, norm
+from .core import AnalysisError, iter_nodes, norm, cnorm
 from . import astq
 from .astq import parents, calls_named, definitions, enclosing_ifs, const_int, attr_tail
 from .linform import Lin, to_lin
@@ -87,12 +87,33 @@ _FIELD_RE = None
 
 
 def _norm_atom(t):
-    """Sibling-independent spelling of an atomic condition: the field of the type at hand is written FIELD."""
-    import re
-    t = re.sub(r'\b(?:type\(\w+\)|\w+)(?:\.sectype)?\.field\b', 'FIELD', t)
-    t = re.sub(r'(?<![\w.])field\b', 'FIELD', t)
-    t = t.replace('runtime.options', 'self.options')
-    return t
+    """Sibling-independent spelling of an atomic condition: the field of the type at hand is written FIELD -- whether it is
+    spelled `stype.field`, `sftype.sectype.field`, a local `field`, or `(<type>.field if <secure> else <type>)`."""
+    import copy
+
+    class F(ast.NodeTransformer):
+        def visit_Attribute(self, n):
+            if n.attr == 'field':
+                return ast.Name(id='FIELD', ctx=ast.Load())
+            if norm(n) == 'runtime.options':
+                return ast.parse('self.options', mode='eval').body
+            return self.generic_visit(n)
+
+        def visit_Name(self, n):
+            return ast.Name(id='FIELD', ctx=ast.Load()) if n.id == 'field' else n
+
+        def visit_IfExp(self, n):
+            n = self.generic_visit(n)
+            if isinstance(n.body, ast.Name) and n.body.id == 'FIELD':
+                return n.body          # `X.field if issubclass(X, SecureObject) else X`: the field either way
+            if isinstance(n.orelse, ast.Name) and n.orelse.id == 'FIELD':
+                return n.orelse
+            return n
+    try:
+        e = ast.parse(t, mode='eval').body
+    except SyntaxError:
+        return t
+    return cnorm(ast.fix_missing_locations(F().visit(copy.deepcopy(e))))
 
 
 def _relevant(a):
